@@ -260,7 +260,7 @@ def reduce_witness(text, ordered, kw, states, explained):
 def run_shard(ctx):
     from mindsdb_sql import parse_sql
     acc = ctx.acc
-    n = 2400 if ctx.tier == 'quick' else 80000
+    n = 4000 if ctx.tier == 'quick' else 80000
     nstates = 3 if ctx.tier == 'quick' else 6
     for i in range(n):
         if not ctx.mine(i):
